@@ -34,7 +34,7 @@ CINV = "CacheTransparent MutualExclusion"
 CHT_FULL = "0,1,2,3,4,129,130,131"
 
 BASE = dict(MODES='"legacy","bip143","bip341"', NINS="1,2", NOUTS="0,1,2", HT1=HT1, HT4LO="1,3,130", HT4HI="1,8388608,16777215",
-            TAPKEY=ALL, TAPSCRIPT=TAPSET, MAXSEP=1, UCS="TRUE", SIG="TRUE", MULTI="TRUE", LONG="TRUE", BUG="none",
+            TAPKEY=ALL, TAPSCRIPT=TAPSET, MAXSEP=1, UCS="TRUE", SIG="TRUE", MULTI="TRUE", LONG="TRUE", MDEPTHS="0,1,2,3,128", BUG="none",
             CNIN=2, CNOUT=2, CIDX="0,1,2", BURSTLEN=1, CMODES='"legacy","bip143","bip341"', CHT=CHT_FULL, THREADS=2, MAXREQ=3,
             SPEC="PSpec", INVS="", PROPLINE="", GENMODE="cases", VECFILE="none.json")
 
@@ -430,7 +430,8 @@ def run(ctx):
         "Bitcoin Core's legacy vectors, real BIP143 signatures and the BIP340 vectors; the model fixes the layout, not the bit-level serialisation",
         "scripts are well-formed, hold one signature check (OP_CHECKSIG, or 1-of-1 OP_CHECKMULTISIG before tapscript), 0..%d OP_CODESEPARATORs (executed or in an "
         "OP_0 OP_IF branch), 0..1 push of the signature itself (canonical push; also of a 76..128-byte zero-padded signature under pre-BIP66 flags); bare, P2WSH, "
-        "P2WPKH, taproot key path and single-leaf script path; P2SH wrappers, n-of-m multisig and truncated pushes are not enumerated" % (1 if quick else 2),
+        "P2WPKH, taproot key path and script path (OP_CHECKSIG / OP_CHECKSIGADD; Merkle paths of length 0, 1, 2, 3, 128 with both branch orders for the defined hash types); "
+        "P2SH wrappers, n-of-m multisig and truncated pushes are not enumerated" % (1 if quick else 2),
         "transactions: %s, seeded random field values (scripts up to 300 bytes so CompactSize 0xfd occurs)" % ("1..2 inputs, 0..2 outputs" if quick else "1..3 inputs, 0..3 outputs"),
         "four-byte hash types reach only the function level (the interpreter takes the hash type from one signature byte)",
         "concurrent replays and bursts do not control the interleaving (no hooks): goroutines are released together, repeated, at GOMAXPROCS 2/4/16, "
